@@ -5,6 +5,7 @@ is computed by TLC from spec/Symbols.tla and arrives as the `exp` record of each
 import re
 
 FILL = 0xAAAA
+PP_KINDS = ("FORWARD", "PUBLIC", "GLOBAL")
 
 DIALECTS = {
     # name: (cpu, word directive, hex formatter, byteorder, SET spellings)
@@ -79,10 +80,10 @@ class Renderer:
             return ["\t%s\t%s" % (self.kw("section"), st["n"])]
         if k == "ENDSECTION":
             return ["\t%s%s" % (self.kw("endsection"), ("\t" + st["n"]) if st["n"] else "")]
-        if k in ("FORWARD", "PUBLIC", "GLOBAL"):
-            q = st["q"]
-            return ["\t%s\t%s%s" % (self.kw(k.lower()), name_text(st["nm"]), qual_text(q, r, self.cs, bracket=False)
-                                    if q["t"] != "none" else "")]
+        if k in PP_KINDS:
+            if st.get("cont"):
+                raise ValueError("argument without its statement")
+            return ["\t%s\t%s" % (self.kw(k.lower()), self.pp_arg(st))]
         if k == "DEF":
             n = name_text(st["nm"])
             if st["kind"] == "label":
@@ -101,6 +102,11 @@ class Renderer:
         if k in ("PUSHV", "POPV"):
             return ["\t%s\t%s,%s%s" % (self.kw(k.lower()), st["st"], name_text(st["nm"]), qual_text(st["q"], r, self.cs))]
         raise ValueError(k)
+
+    def pp_arg(self, st):
+        """one argument of FORWARD/PUBLIC/GLOBAL: name or name:section"""
+        q = st["q"]
+        return name_text(st["nm"]) + (qual_text(q, self.r, self.cs, bracket=False) if q["t"] != "none" else "")
 
     def block(self, stmts, base):
         """returns (definition lines to hoist, body lines); each line is (text, stmt index)"""
@@ -122,6 +128,14 @@ class Renderer:
                 continue
             if st["k"] == "MACEND":      # unmatched: cannot be rendered
                 raise ValueError("unbalanced MACEND")
+            if st.get("cont"):
+                # a further argument of the FORWARD/PUBLIC/GLOBAL statement before it: same source line
+                if not (i > 0 and stmts[i - 1]["k"] == st["k"] and st["k"] in PP_KINDS):
+                    raise ValueError("argument without its statement")
+                text, idx = body[-1]
+                body[-1] = (text + self.r.choice([",", ", ", " ,"]) + self.pp_arg(st), idx)
+                i += 1
+                continue
             for ln in self.stmt(st):
                 body.append((ln, base + i))
             i += 1
@@ -210,6 +224,10 @@ def trace_events(beh, trace):
         for st in stmts:
             if st["k"] == "MACEND":
                 out.append({"a": "STMT", "st": st, "obs": [], "err": False})
+                continue
+            if st.get("cont"):
+                # a further argument of the statement before it: same source line, same event
+                out[-1].setdefault("more", []).append(st)
                 continue
             try:
                 ev, obs = next(it)
